@@ -17,8 +17,9 @@ RULES = {
     "R3": "no lossy transformer (dtype narrowing, round, clip, partial slice, sort/unique) between attribute and dataset",
     "R5": "what load_h5 restores goes through the constructor's encoders: they join on the identifying columns and hand the mapping columns back unconverted (C01.R1 run here)",
     "R4": "load re-uses the stored mappings (constructor receives them; the supplied-mapping branch builds its table from the mapping verbatim)",
+    "R6": "the supplied-mapping branch of both encoders builds the id table from the mapping's columns verbatim (no pruning, re-sorting or renumbering of stored mappings on load; C03.R5 run here)",
 }
-MIN = {"R1": 16, "R4": 3, "R5": 6}
+MIN = {"R1": 16, "R4": 3, "R5": 6, "R6": 4}
 TRUSTED = ["h5py stores and returns numpy arrays of float64/int64/bool/bytes unchanged", "np.char.encode/decode are inverse for utf-8"]
 TECHNIQUE = "writer/reader table extraction from the syntax tree and set comparison against the constructor's parameter list"
 LEVEL_TEXT = ("For every field of every screen at once: the loader restores it from the key under which the writer stored "
@@ -93,7 +94,12 @@ def r5(ctx):
     ctx.borrow(C01.r1, "R5")
 
 
-RULE_FUNCS = [r1, r4, r5]
+def r_br6(ctx):
+    from . import C03
+    ctx.borrow(C03.r5, "R6")
+
+
+RULE_FUNCS = [r1, r4, r5, r_br6]
 
 
 def _rep(a, b):
